@@ -85,7 +85,7 @@ Proof.
     - intros w0 lowest0 e burst [Hok0 Hrest0] He Hj. apply in_map_iff in He as (x & <- & Hx).
       destruct (HD2 x Hx) as (_ & _ & Hgt).
       assert (Hmode2 : (j_mode c =? 2) = false) by (rewrite Hmode; reflexivity).
-      destruct (join_mode0 c w0 lowest0 (fev x) burst Hmode2 Hj) as [Hb Hrd]. cbn [eblk file_event] in Hb.
+      destruct (join_mode0 c w0 lowest0 (fev x) burst Hmode2 Hj) as (Hb & Hrd & _). cbn [eblk file_event] in Hb.
       destruct (vstate_of_hub U (j_first c) (j_kept c) Hid Huniq Hup Hdecl (w_hub w0) Hok0 Hrd) as [V HV].
       destruct (burst_shape U c Hid Huniq Hup (h_f (w_hub w0)) V (bnum x) burst HV Hb)
         as (hd & sg & y & suf & l0 & _ & _ & _ & _ & Hny & Hmap & Hnew & _).
@@ -182,14 +182,12 @@ Qed.
 
 Lemma c13_stop_reached_proof : C13_stop_reached.
 Proof.
-  intros U c w ps merged_end canon forked Hwfb Hlok Hhub Hchain Hincl merged Htip Hagr Hmode Hfilter Hbundle Hmb
+  intros U c w ps merged_end canon forked Hwfb Hlok Hhub Hchain Hincl merged Htip Hmode Hfilter Hbundle Hmb
          HS Hbound start Hstart Hstartblk bS HbS HnS res0 res Hnil.
   set (c0 := with_stop c 0).
   assert (Htip0 : eventual_tip c0 w canon).
   { intros k hd. unfold c0. rewrite world_after_ws. apply Htip. }
-  assert (Hagr0 : files_agree c0 w merged).
-  { intros k hd sg x b. unfold c0. rewrite world_after_ws. apply Hagr. }
-  destruct (c07_seamless_num_proof U c0 w ps merged_end canon forked Hwfb Hlok Hhub Hchain Hincl Htip0 Hagr0
+  destruct (c07_seamless_num_proof U c0 w ps merged_end canon forked Hwfb Hlok Hhub Hchain Hincl Htip0
               Hmode Hfilter eq_refl Hbundle Hmb Hstartblk) as (c' & Hfold & Hfin).
   fold merged in Hfold, Hfin. fold res0 in Hfold, Hfin. change (run_start c0 w) with start in Hfin.
   exists c'. split; [exact Hfold|]. split; [exact (Hfin Hnil)|]. intros Hcase.
